@@ -40,7 +40,12 @@ PREFIXES = ['', ' ', '\n', '  \n\t', '-- c\n', '/* c */', '/* c */ ',
             '-- a\n-- b\n', '/* a *//* b */', '\r\n', '# c\n']
 CONTS = [' 1', ' * from t', '\n x', ' a.b', ';', '', ' /*c*/ x', ' x;',
          '\t1', ' "q"', " 'str'", ' x (1)', '\n-- c\nx', ' t set a = 1',
-         ' 1 union select 2', ' from t where a = 1']
+         ' 1 union select 2', ' from t where a = 1',
+         # an identifier (list) followed by a DML keyword: only a WITH
+         # statement is typed by the keyword behind its definitions
+         ' x select 1', ' t insert into u values (1)', ' a, b select 2',
+         ' x as (select 1) select 2', ' t update u set a = 1',
+         ' a delete from t']
 D18_CONTS = ['(1)', ' .5', '.5', '(select 1)', ' . x', '.x']
 
 
@@ -172,7 +177,9 @@ def shard(ctx):
                              if tt in (T.Keyword.DML, T.Keyword.DDL))
                          | set(REFERENCE_DML) | set(REFERENCE_DDL)),
         'other': sorted(w for w, tt in table.items()
-                        if tt not in (T.Keyword.DML, T.Keyword.DDL)
+                        if tt not in (T.Keyword.DML, T.Keyword.DDL,
+                                      T.Keyword.CTE)
+                        and w not in ('WITH',)
                         and w not in REFERENCE_DML
                         and w not in REFERENCE_DDL)[::7],
     }
